@@ -357,6 +357,13 @@ func (p *Program) constTableLoad(v ssa.Value) (*constTab, ssa.Value, bool) {
 	if !ok {
 		return nil, nil, false
 	}
+	if al, isLocal := ia.X.(*ssa.Alloc); isLocal {
+		// a local table of integer constants written once where it is declared (`w := [8]int{0, 1, 2, 3, 4, 6, 8, 8}`)
+		if ct := localConstTable(al); ct != nil {
+			return ct, ia.Index, true
+		}
+		return nil, nil, false
+	}
 	g, ok := ia.X.(*ssa.Global)
 	if !ok || p == nil {
 		return nil, nil, false
@@ -633,4 +640,63 @@ func (p *Program) strTableElem(v ssa.Value) *strTab {
 		}
 	}
 	return nil
+}
+
+// localConstTable: al is a local array of integers whose elements are all constants stored once, with constant indices,
+// in the block that declares it (see literalElem); elements never stored are zero.
+func localConstTable(al *ssa.Alloc) *constTab {
+	pt, ok := al.Type().Underlying().(*types.Pointer)
+	if !ok {
+		return nil
+	}
+	arr, ok := pt.Elem().Underlying().(*types.Array)
+	if !ok || arr.Len() > 64 {
+		return nil
+	}
+	if b, ok := arr.Elem().Underlying().(*types.Basic); !ok || b.Info()&types.IsInteger == 0 {
+		return nil
+	}
+	ct := &constTab{vals: map[int64]int64{}, n: arr.Len()}
+	stored := 0
+	for _, r := range *al.Referrers() {
+		ia, ok := r.(*ssa.IndexAddr)
+		if !ok {
+			switch r.(type) {
+			case *ssa.DebugRef:
+				continue
+			}
+			return nil
+		}
+		for _, r2 := range *ia.Referrers() {
+			st, isSt := r2.(*ssa.Store)
+			if !isSt {
+				if _, isLd := r2.(*ssa.UnOp); isLd {
+					continue
+				}
+				if _, isDbg := r2.(*ssa.DebugRef); isDbg {
+					continue
+				}
+				return nil
+			}
+			k, isK := constInt(ia.Index)
+			v, isV := constInt(st.Val)
+			if !isK || !isV || st.Addr != ssa.Value(ia) || st.Block() != al.Block() {
+				return nil
+			}
+			if _, dup := ct.vals[k]; dup {
+				return nil
+			}
+			ct.vals[k] = v
+			stored++
+		}
+	}
+	if stored == 0 {
+		return nil
+	}
+	for k := int64(0); k < ct.n; k++ {
+		if _, ok := ct.vals[k]; !ok {
+			ct.vals[k] = 0
+		}
+	}
+	return ct
 }
